@@ -100,9 +100,9 @@ theorem history_forget_handle_core (cfg : Cfg) (w : World) (hr : Hist.Reach cfg 
 /-- **history theorem**: forgetting a `Drain` at any stage of consumption (after any pattern of
 `next`/`next_back`, items dropped, forgotten, downcast) keeps the world invariant. -/
 theorem history_forget_drain_core (cfg : Cfg) (w : World) (hr : Hist.Reach cfg w) (v : Nat) (lo hi : Bnd)
-    (typed : Bool) (eats : List (End × Sink)) (hv : Hist.liveVec w.vecs v) (hc : ∀ p ∈ eats, p.2.Core) :
+    (typed : Bool) (eats : List (End × Sink)) (hv : Hist.liveVec w.vecs v) (hc : ∀ p ∈ eats, p.2.ValidItem w.vecs v typed) :
     (runStep cfg (.drain v lo hi typed eats .forget) none w).1.Inv :=
-  (Hist.runStep_inv cfg (.drain v lo hi typed eats .forget) none w (Hist.reach_inv_core cfg w hr) hc hv).1
+  (Hist.runStep_inv cfg (.drain v lo hi typed eats .forget) none w (Hist.reach_inv_core cfg w hr) trivial ⟨hv, hc⟩).1
 
 end C07
 end AnyVec
